@@ -277,7 +277,7 @@ func classify(err error) string {
 		return "ok"
 	}
 	for _, s := range sentinel {
-		if err == s.err {
+		if errors.Is(err, s.err) { // (also through fmt.Errorf("…%w", err))
 			return "rej:" + s.cls
 		}
 	}
